@@ -80,11 +80,15 @@ func verifStubSDVerify(sd *cms.SignedData, pool cms.CertPool) ([][]byte, error) 
 // reference time for the certificate validity checks - so it must arrive without one
 func verifStubNewCfg() *cms.CMSConfig { return &cms.CMSConfig{} }
 
+var verifCachedSigningTime time.Time
+
 func verifStubSDVerifyCfg(sd *cms.SignedData, cfg *cms.CMSConfig, pool cms.CertPool) ([][]byte, error) {
-	verifAssert(cfg != nil && cfg.ReferenceTime == nil, "each signed object is verified against its own signing time (no reference time carried over from another object)")
-	if cfg != nil {
-		var t time.Time
-		cfg.ReferenceTime = &t
+	// what SignerInfo.VerifyWithConfig does: without a caller-supplied reference time it caches the
+	// object's signing time in the configuration. A configuration that arrives carrying the time
+	// cached for ANOTHER object would have that object's signing time decide this one's validity checks.
+	verifAssert(cfg != nil && cfg.ReferenceTime != &verifCachedSigningTime, "each signed object is verified against its own signing time (no reference time carried over from another object)")
+	if cfg != nil && cfg.ReferenceTime == nil {
+		cfg.ReferenceTime = &verifCachedSigningTime
 	}
 	return verifStubSDVerify(sd, pool)
 }
